@@ -447,7 +447,9 @@ def gen_acyclic(rng, maxc=12, feedback=True):
     bursts = []
     for _ in range(rng.randrange(1, 7)):
         burst = []
-        for _ in range(rng.randrange(1, 5)):
+        # now and then a long burst: more output changes than 3 x the number of blocks
+        blen = rng.randrange(1, 5) if rng.random() < 0.88 else 3 * len(blocks) + rng.randrange(2, 9)
+        for _ in range(blen):
             s = rng.choice(srcs)
             if s['kind'] == 'counter':
                 burst.append([s['name'], rng.choice(['inc', 'dec', 'inc']), None])
@@ -491,7 +493,7 @@ def check(run):
                 "named group inputs) over 1..4 Input/Counter blocks, references by object, by name, "
                 "by '_not_NAME' shortcut, Const and plain constants, reconvergent fan-out, CBlock->"
                 "SBlock feedback through on_output events (put / EventCond / not_from_undef); "
-                "histories of 1..6 bursts of 1..4 external events sent without yielding. The observed "
+                "histories of 1..6 bursts of 1..4 external events (12 % of the bursts: more than 3 x the number of blocks) sent without yielding. The observed "
                 "schedule (set_output and eval_block calls with the computed value, in order) and "
                 "the outputs of all blocks right after wait_init() and after every burst are fed to "
                 "the acceptor; thorough adds all chains of <= 3 boolean CBlocks x all input vectors "
